@@ -46,6 +46,7 @@ def run(ctx):
     ctx.rule('HASHCANON', 'every simplex hash in the flip code is computed over the u64-sorted key sequence')
     ctx.rule('NEWORIENT', 'a new cell found negatively oriented is reordered before it is inserted')
     ctx.rule('DIMGATE', 'each flip context builder refuses dimensions below the size of its move')
+    ctx.rule('KARG', 'the run-time k of the dynamic flip entry is a function of the const dimension alone and siblings agree on it')
     ctx.rule('POSTFLIP', 'a flip layer reports success only behind neighbour wiring, removal of the old cells and the '
                          'coherent-orientation normalisation')
     for cfg in ctx.cfgs:
@@ -55,6 +56,7 @@ def run(ctx):
         lv = gate.Leaves(prog)
         _postflip(ctx, cfg, prog, lv)
         _dimgate(ctx, cfg, prog)
+        _karg(ctx, cfg, prog, ctx.mod(cfg))
         _newcellorient(ctx, cfg, prog, ctx.mod(cfg))
         kb = ctx.anchor(cfg, KERNEL)
         if kb is None:
@@ -282,6 +284,109 @@ MIN_DIM = {
     F + 'build_k2_flip_context_from_edge': 3,
     F + 'build_k3_flip_context_from_triangle': 4,
 }
+
+
+DYN = 'core::algorithms::flips::apply_bistellar_flip_dynamic'
+# std plumbing through which `D - 1` may travel (`D.checked_sub(1).ok_or(..)?`)
+KARG_PLUMBING = ('checked_sub', 'saturating_sub', 'checked_add', 'saturating_add', 'wrapping_sub', 'ok_or', 'ok_or_else',
+                 'Try>::branch', 'unwrap_or', 'FromResidual', '::min', '::max')
+
+
+def _k_ops(b, local):
+    """Arithmetic applied to the const dimension in the backward slice of `local`: {'sub', 'add', ..}."""
+    seen, work, ops = set(), [local], set()
+    while work:
+        l = work.pop()
+        if l in seen:
+            continue
+        seen.add(l)
+        for (_, idx, node) in b.defs.get(l, []):
+            if idx == 'term':
+                nm = (node.resolved or node.callee or '').rsplit('::', 1)[-1]
+                for key_ in ('sub', 'add', 'mul', 'div'):
+                    if key_ in nm:
+                        ops.add(key_)
+                for o in node.args:
+                    if o.place is not None:
+                        work.append(o.place.local)
+            else:
+                rv = node.rv
+                if rv.k in ('bin', 'checked_bin') or 'op' in rv.raw:
+                    op = str(rv.raw.get('op', '')).lower()
+                    for key_ in ('sub', 'add', 'mul', 'div'):
+                        if op.startswith(key_):
+                            ops.add(key_)
+                for o in rv.ops:
+                    if o.place is not None:
+                        work.append(o.place.local)
+                if rv.place is not None:
+                    work.append(rv.place.local)
+    return ops
+
+
+def _karg(ctx, cfg, prog, mod):
+    """KARG: the dynamic flip entry takes the number of removed cells as a run-time `k`; the kernel checks the context
+    against it, so a wrong `k` turns every legal move of that kind into a refusal (or, where the sizes happen to agree,
+    into a different move).  For a context built by a fixed builder, `k` is a function of the dimension alone: every
+    non-test call site computes it from the const generic D and literals only, and the call sites that share a context
+    builder agree on the expression (sibling cross-check between the Edit API and the repair loop)."""
+    import valueflow
+    groups = {}
+    n = 0
+    for q, b in sorted(prog.bodies.items()):
+        if '::tests::' in q or not b.file.startswith('src/'):
+            continue
+        al = None
+        for bb, t in b.calls():
+            if (t.resolved or t.callee) != DYN or len(t.args) < 4:
+                continue
+            al = al or mod.aliases(q)
+            n += 1
+            k = t.args[2]
+            hasD, lits, foreign = False, [], []
+            ops_ = set()
+            if k.kind == 'k':
+                hasD = isinstance(k.const, dict) and k.const.get('v') == 'D'
+                if not hasD:
+                    lits.append(str(k.const.get('i', k.const.get('v'))))
+            else:
+                for leaf in valueflow.sources(b, al, k.place.local):
+                    if leaf[0] == 'const':
+                        txt = leaf[1]
+                        if txt.strip() in ('const D', 'D'):
+                            hasD = True
+                        else:
+                            m_ = txt.replace('const ', '').replace('_usize', '')
+                            if m_.lstrip('-').isdigit():
+                                lits.append(m_)
+                    elif leaf[0] == 'call':
+                        nm = leaf[1].resolved or leaf[1].callee or ''
+                        if not any(p_ in nm for p_ in KARG_PLUMBING) and 'FlipError' not in nm:
+                            foreign.append(nm.rsplit('::', 1)[-1])
+                    elif leaf[0] in ('place', 'param'):
+                        foreign.append('argument / receiver state')
+                ops_ = _k_ops(b, k.place.local)
+            builder = sorted({(l[1].resolved or l[1].callee).rsplit('::', 1)[-1]
+                              for o in t.args[3:4] if o.place is not None
+                              for l in valueflow.sources(b, al, o.place.local)
+                              if l[0] == 'call' and 'build_k' in (l[1].resolved or l[1].callee or '')})
+            form = ('D' if hasD else '-', tuple(sorted(ops_)), tuple(sorted(set(lits))))
+            ok = hasD and not foreign
+            ctx.ob('KARG', '%s|%s' % (b.root or q, '+'.join(builder) or 'context'), cfg, ok,
+                   'k is computed from the const dimension%s only' % (' (%s %s)' % ('/'.join(form[1]), list(form[2])) if form[2] else '') if ok else
+                   'k handed to the dynamic flip entry is not a function of the dimension alone (const D in its slice: %s; other '
+                   'inputs: %s): for a context built by %s the number of removed cells is fixed by D' % (
+                       hasD, sorted(set(foreign))[:4] or 'none', '+'.join(builder) or 'its builder'),
+                   site='%s:%d' % (b.file, t.line))
+            for bn in builder:
+                groups.setdefault(bn, []).append((form, b.root or q, ok))
+    for bn, lst in sorted(groups.items()):
+        forms = {f for f, _, okk in lst if okk}
+        if len(lst) > 1:
+            ctx.ob('KARG', 'siblings|' + bn, cfg, len(forms) <= 1,
+                   '%d call sites after %s agree on k = %s' % (len(lst), bn, sorted(forms)) if len(forms) <= 1 else
+                   'call sites after %s disagree on k: %s' % (bn, sorted((f, w.rsplit('::', 1)[-1]) for f, w, _ in lst)))
+    ctx.floor('non-test call sites of apply_bistellar_flip_dynamic', 3, n, cfg)
 
 
 def _dimgate(ctx, cfg, prog):
